@@ -26,6 +26,25 @@ mod template;
 mod trojan;
 mod vmess;
 
+/// Verification hooks: re-exports of otherwise private codecs.
+#[cfg(octo_squirrel_verif)]
+pub mod verif {
+    pub use super::config::SslConfig;
+    pub use super::template::message::InboundIn;
+    pub use super::template::message::OutboundIn;
+    pub mod shadowsocks {
+        pub use crate::server::shadowsocks::verif::*;
+    }
+    pub mod vmess {
+        pub use crate::server::vmess::ServerAeadCodec;
+        pub use crate::server::vmess::new_codec;
+    }
+    pub mod trojan {
+        pub use crate::server::trojan::ServerCodec;
+        pub use crate::server::trojan::new_codec;
+    }
+}
+
 pub async fn main() -> anyhow::Result<()> {
     let _ = rustls::crypto::aws_lc_rs::default_provider().install_default();
     let servers = config::init()?;
